@@ -11,7 +11,7 @@ RULE = ("(i) every multigraph with E<=3 (quick) / E<=4 (thorough) edges on 4 ver
         "random u8 relabelling, several mass patterns and external sets (incl. an untouched vertex), all 2^E subsets via the "
         "hook; (ii) catalogue + random graphs up to E=6 (quick) / 8 (thorough), D=1..6, accepted ones through the full table. "
         "Non-trivial: >=2 edges and (parallel edge or self-loop or >=2 components or mixed masses or externals != touched vertices)")
-ASSUMPTIONS = ["generalized_dod compared with the exact rational value at 1e-12 (absolute, scaled by the weight sum)"]
+ASSUMPTIONS = ["generalized_dod compared with the exact rational value with tolerance (E+4) eps x (subset weight sum + loops D/2 [+ |dod| + total weight sum + L D/2 when spanning])"]
 
 
 def exhaustive_graphs(max_e):
@@ -63,6 +63,11 @@ def run(ctx):
                 break
     # ---------------- (ii) full tables
     cases = graphs.case_stream(rng, 60 if ctx.quick else 500, max_e=6 if ctx.quick else 8, accepted_fraction=0.85)
+    # variants with one tiny propagator power (a generalised dod far below f64::EPSILON is still a positive number, not zero)
+    for c0 in list(cases[: (10 if ctx.quick else 60)]):
+        w = list(c0["weights"]); w[rng.randrange(len(w))] = 10.0 ** -rng.uniform(17, 300)
+        dod, Lf, table = oracle.table_oracle(c0["edges"], w, c0["massive"], c0["ext"], c0["D"])
+        cases.append(dict(c0, weights=w, dod=dod, loops=Lf, table=table, accepted=not oracle.divergent_subsets(table), name=c0.get("name", "") + "+tiny_weight"))
     reqs = [graphs.request(c) for c in cases]
     impl = run_harness(reqs)
     model = run_driver([dict(r, gammas=a.get("gammas", [])) for r, a in zip(reqs, impl)])
@@ -84,14 +89,21 @@ def run(ctx):
         L, D = c["loops"], c["D"]
         if a["numVars"] != 2 * n - 1 + D * L + (D * L) % 2:
             ctx.violation("hypercube dimension differs from 2E-1+DL+(DL mod 2)", r, expected=2 * n - 1 + D * L + (D * L) % 2, observed=a["numVars"])
+        EPS = 2.0 ** -52
+        wall = float(sum(abs(w) for w in c["weights"]))
+
+        def entry_tol(mask, sp):
+            """rounding of omega = (sum of the subset's weights) - loops*D/2 - [spanning] dod, each computed in f64"""
+            ws = sum(abs(c["weights"][e]) for e in range(n) if mask >> e & 1)
+            return (n + 4) * EPS * (ws + c["table"][mask][0] * D / 2.0 + ((abs(float(c["dod"])) + wall + L * D / 2.0) if sp else 0.0))
         if m.get("status") == "ok":
             for mask, (ea, em) in enumerate(zip(a["entries"], m["entries"])):
-                if ea[0] != em[0] or ea[1] != em[1] or not bits_close(ea[3], em[3], 4, absol=1e-13 * scale):
+                if ea[0] != em[0] or ea[1] != em[1] or not bits_close(ea[3], em[3], 4, absol=entry_tol(mask, ea[1])):
                     ctx.mismatch("table entry (loop_number, spanning, generalized_dod) model vs implementation", r,
                                  {"mask": mask, "entry": ea}, {"mask": mask, "entry": em}); break
         for mask, ea in enumerate(a["entries"]):
             loops, sp, om, _ = c["table"][mask]
-            if ea[0] != loops or ea[1] != sp or not bits_close(ea[3], f2b(float(om)), 4, absol=1e-12 * scale):
+            if ea[0] != loops or ea[1] != sp or not bits_close(ea[3], f2b(float(om)), 4, absol=entry_tol(mask, sp)):
                 ctx.violation(f"table entry of subset {mask:#b} differs from the exact oracle", r,
                               expected={"loops": loops, "mms": sp, "omega": float(om)},
                               observed={"loops": ea[0], "mms": ea[1], "omega": b2f(ea[3])}); break
